@@ -116,6 +116,10 @@ func (x nref) testFor(g *exprGen) string {
 	case xmlquery.ElementNode:
 		switch c := r.Pick(10); {
 		case c < 6:
+			if x.n.Prefix != "" && r.Chance(0.2) {
+				g.feat["bare-name-of-prefixed-element"] = true
+				return x.n.Data // bare local name: selects only un-prefixed namesakes
+			}
 			return qname(x.n.Prefix, x.n.Data)
 		case c < 9:
 			return "*"
